@@ -24,7 +24,8 @@ REQUIRED = {'node-dense': 50, 'get': 50, 'full': 50, 'sum': 50, 'mean': 50,
     'meanP': 30, 'mul_scalar': 50, 'norm': 50, 'accuracy': 30,
     'accuracy_on_data': 30, 'interface': 50, 'get_and_grad': 30,
     'props': 50, 'erank': 50, 'outer': 10, 'int-bitexact': 20,
-    'large-exact': 200, 'dtype-upcast': 100,
+    'large-exact': 200, 'dtype-upcast': 100, 'shared-objects': 200,
+    'accuracy-gap': 30,
     'get_many': 50}
 ASSUMPTIONS = ['numpy longdouble (64-bit mantissa) contraction is the dense '
     'reference; tolerance 10*(sum ranks + d)*2^-52*absbound',
@@ -46,6 +47,10 @@ def gen_cases(seed, tier):
         out.append({'kind': 'large', 'seed': int(rng.integers(1 << 62))})
     for j in range(60 if tier == 'quick' else 1500):
         out.append({'kind': 'dtype', 'seed': int(rng.integers(1 << 62))})
+    for j in range(60 if tier == 'quick' else 1500):
+        out.append({'kind': 'shared', 'seed': int(rng.integers(1 << 62))})
+    for j in range(40 if tier == 'quick' else 1000):
+        out.append({'kind': 'gap', 'seed': int(rng.integers(1 << 62))})
     for j in range(n):
         out.append({'seed': int(rng.integers(1 << 62)),
             'depth': int(rng.integers(1, 5 if tier == 'quick' else 8)),
@@ -265,7 +270,88 @@ def run_dtype(case, ctx):
     ctx.nontrivial(['dtype', n, kind])
 
 
+def run_shared(case, ctx):
+    """TT lists holding the SAME array object at several positions (periodic
+    tensors such as [G0, G, G, G, Gd] or [A, B] * 2) are ordinary tensors."""
+    import teneva
+    rng = np.random.default_rng(case['seed'])
+    nm, rr = int(rng.integers(2, 4)), int(rng.integers(1, 4))
+    if rng.random() < 0.5:
+        d = int(rng.integers(3, 6))
+        G = rng.normal(size=(rr, nm, rr))
+        Y = [rng.normal(size=(1, nm, rr))] + [G] * (d - 2) + \
+            [rng.normal(size=(rr, nm, 1))]
+    else:
+        A_, B_ = rng.normal(size=(1, nm, rr)), rng.normal(size=(rr, nm, 1))
+        Y = [A_, B_] * int(rng.integers(2, 4))
+        d = len(Y)
+    n = [nm] * d
+    X = gen.cores(rng, n, gen.rand_ranks(rng, d, 2), 'normal')
+    before = [G.copy() for G in Y]
+    vY, vX = leaf_val(Y, False), leaf_val(X, False)
+    c = float(np.round(rng.normal() * 2, 2)) or 1.5
+    for name, a, b in (('mul', vY, num_val(c)), ('mul', num_val(c), vY),
+            ('sub', vX, vY), ('sub', vY, vX), ('add', vY, vY),
+            ('mul', vY, vY), ('sub', vY, num_val(c)), ('add', num_val(c), vY)):
+        res = getattr(teneva, name)(a.num if a.is_num else a.tt,
+            b.num if b.is_num else b.tt)
+        sh, _ = apply_shadow(name, a, b)
+        why = ref.wellformed(res, n)
+        if not ctx.check('shared-objects', why is None, f'{name}: {why}'):
+            continue
+        A, AB, ex = sh
+        ctx.close('shared-objects', ref.dense_ld(res), A, C * ref.nterms(res)
+            * EPS * AB, f'{name} on a tensor whose list holds one array object '
+            f'at several positions (d={d})')
+    Z = teneva.copy(Y)
+    Z[0] *= 2.
+    ctx.close('shared-objects', ref.dense_ld(Z), 2 * vY.A, C * ref.nterms(Y)
+        * EPS * 2 * vY.AB, 'copy(Y) followed by an in-place scaling of the '
+        "copy's first core")
+    acc = teneva.accuracy(X, Y)
+    N1 = np.sum((vX.A - vY.A) ** 2)
+    N2 = np.sum(vY.A ** 2)
+    ctx.check('shared-objects', abs(acc - float(np.sqrt(N1 / N2))) <= 1e-9
+        * float(np.sqrt(N1 / N2)), f'accuracy(X, Y) = {acc!r}, dense '
+        f'{float(np.sqrt(N1 / N2))!r}')
+    ctx.check('shared-objects', all(np.array_equal(g, h) for g, h in
+        zip(Y, before)), 'the operand with shared core objects was modified')
+    ctx.nontrivial(['shared', n, rr, d])
+
+
+def run_gap(case, ctx):
+    """Relative accuracy of two tensors on very different scales: the true
+    ratio (up to 1e140, far below the documented saturation at 2^500) is
+    representable and must be returned."""
+    import teneva
+    rng = np.random.default_rng(case['seed'])
+    Y1, info = gen.make_tt(rng, 'generic', dmin=2, dmax=4, nmax=3, rmax=2,
+        max_entries=100)
+    n = info['n']
+    d = len(n)
+    Y2 = gen.cores(rng, n, gen.rand_ranks(rng, d, 2), 'normal')
+    # ||Y2|| stays above 1e-90 (below ~1e-100 the documented sentinel -1 for
+    # an almost zero denominator applies), the ratio reaches 1e60..1e140
+    s1, s2 = float(rng.uniform(20, 60)), float(rng.uniform(40, 80))
+    g = s1 + s2
+    for G in Y1:
+        G *= 10.0 ** (s1 / d)
+    for G in Y2:
+        G *= 10.0 ** (-s2 / d)
+    A1, A2 = ref.dense_ld(Y1), ref.dense_ld(Y2)
+    want = np.sqrt(np.sum((A1 - A2) ** 2) / np.sum(A2 ** 2))
+    acc = teneva.accuracy(Y1, Y2)
+    ctx.check('accuracy-gap', np.isfinite(acc) and abs(LD(acc) - want)
+        <= 1e-8 * want, f'accuracy(Y1, Y2) = {acc!r} but the relative '
+        f'distance is {float(want)!r} (scales differ by 1e{g:.0f})', shape=n)
+    ctx.nontrivial(['gap', n, int(g)])
+
+
 def run_case(case, ctx):
+    if case.get('kind') == 'shared':
+        return run_shared(case, ctx)
+    if case.get('kind') == 'gap':
+        return run_gap(case, ctx)
     if case.get('kind') == 'large':
         return run_large(case, ctx)
     if case.get('kind') == 'dtype':
